@@ -154,6 +154,31 @@ func applyEdit(t fsmodel.Tree, e Edit) fsmodel.Tree {
 		}
 		t = removeSub(t, e.Path)
 		t = append(t, fsmodel.Node{Path: e.Path, Kind: fsmodel.Symlink, Perm: 0777, Mtime: fsmodel.T0 + 782, Link: "somewhere"})
+	case "to-symlink-sibling":
+		// replace a directory by a symlink to another directory that has entries of the same names
+		if n == nil || n.Kind != fsmodel.Dir {
+			return nil
+		}
+		target := ""
+		for _, m := range t {
+			if m.Kind == fsmodel.Dir && m.Path != e.Path && parentOf(m.Path) == parentOf(e.Path) && !strings.HasPrefix(m.Path, e.Path+"/") {
+				same := false
+				for _, c := range t {
+					if parentOf(c.Path) == e.Path && t.Find(m.Path+"/"+c.Path[len(e.Path)+1:]) != nil {
+						same = true
+					}
+				}
+				if same {
+					target = m.Path
+				}
+			}
+		}
+		if target == "" {
+			return nil
+		}
+		t = removeSub(t, e.Path)
+		rel := target[strings.LastIndexByte(target, '/')+1:]
+		t = append(t, fsmodel.Node{Path: e.Path, Kind: fsmodel.Symlink, Perm: 0777, Mtime: fsmodel.T0 + 784, Link: rel})
 	case "retarget":
 		if n == nil || n.Kind != fsmodel.Symlink {
 			return nil
@@ -223,7 +248,7 @@ func applyEdit(t fsmodel.Tree, e Edit) fsmodel.Tree {
 }
 
 var editNames = []string{"rewrite-same-size", "rewrite-other-size", "rewrite-big", "touch", "chmod", "chmod-suid", "chown", "chgrp", "delete",
-	"add-file", "add-dir", "rename", "to-dir", "to-file", "to-symlink", "retarget", "retarget-same-len", "link-to-prev", "unlink", "renumber", "to-fifo"}
+	"add-file", "add-dir", "rename", "to-dir", "to-file", "to-symlink", "to-symlink-sibling", "retarget", "retarget-same-len", "link-to-prev", "unlink", "renumber", "to-fifo"}
 
 // allEdits lists every edit applicable to the tree (at existing paths, and at
 // a few free names for additions).
@@ -272,6 +297,8 @@ func baseTrees() []fsmodel.Tree {
 		{d("d", 1), d("d/e", 2), f("d/e/f", 1, 32768, 3), f("d/e/g", 2, 32769, 4), fsmodel.Node{Path: "d/s", Kind: fsmodel.Symlink, Perm: 0777, Mtime: T + 5, Link: "e/f"},
 			fsmodel.Node{Path: "s", Kind: fsmodel.File, Perm: 04755, Mtime: T + 6, Data: fsmodel.Content(7, 10)}},
 	}
+	// two sibling directories with entries of the same names (a release switch: cur -> v1)
+	trees = append(trees, fsmodel.Tree{d("cur", 1), f("cur/app", 1, 9, 2), f("cur/conf", 2, 3, 3), d("v1", 4), f("v1/app", 3, 8, 5), f("v1/conf", 4, 4, 6), d("v1/sub", 7), d("cur/sub", 8), f("cur/sub/x", 5, 2, 9), f("v1/sub/x", 6, 2, 10)})
 	trees[3][0].HL = 1
 	for i := range trees {
 		trees[i].Sort()
